@@ -19,8 +19,11 @@ COMPONENTS_SEQ = {
 }
 
 
-def seq_spec(pid, level, rule, profile, oracle_factory, nontrivial_fn=None, world_kw=None, world_fn=None, **kw):
+def seq_spec(pid, level, rule, profile, oracle_factory, nontrivial_fn=None, world_kw=None, world_fn=None, enumerated=False, **kw):
     def run_one(seed, run, keep=True):
+        if enumerated:
+            res = engine.run_enumerated(pid, seed, run, profile, oracle_factory, world_kw=dict(world_kw or {}), nontrivial_fn=nontrivial_fn)
+            return runner.result_to_dict(res, keep_trace=True)
         res = engine.run_generated(pid, seed, run, profile, oracle_factory, world_kw=dict(world_kw or {}), nontrivial_fn=nontrivial_fn, world_fn=world_fn)
         return runner.result_to_dict(res, keep_trace=True)
 
@@ -41,7 +44,7 @@ def seq_spec(pid, level, rule, profile, oracle_factory, nontrivial_fn=None, worl
         res = engine.run_trace(doc["world"], small, profile, oracle_factory)
         v = [x for x in res.violations if x.oracle == want][0]
         out = dict(doc)
-        out["trace"] = small
+        out["trace"] = res.trace  # outcomes re-recorded on the minimised history
         out["original_length"] = len(doc["trace"])
         out["expected"] = {"oracle": want, "msg": v.msg, "step": v.step}
         return out
@@ -71,7 +74,7 @@ _REG = {}
 
 
 def _build():
-    from .oracles import c01, c02, c03, c10
+    from .oracles import c01, c02, c03, c09, c10
 
     _REG["C02"] = seq_spec(
         "C02",
@@ -137,6 +140,27 @@ def _build():
         nontrivial_fn=c01.nontrivial,
         assumptions=["waveform sample values are taken from the real code (C16's business)", "RefSched start prediction decides whether a valid pulse still fits max_sequence_duration"],
         expected_probes=["pulse_near_limit", "pulse_lengthened", "near_max_sequence_duration"],
+    )
+
+    _REG["C09"] = seq_spec(
+        "C09",
+        "fault_enumeration",
+        "seeded base histories (<=14 building calls, world/programs/interleaving from VERIF_SEED); at EVERY position of every base history EVERY fault-catalogue entry constructible in the current state (simlib/faults.py, ~60 kinds) and every read-only call is issued and followed by a full-state comparison; restarts through abstract/legacy/build/switch paths at seeded positions; the run continues on the restored object and RefSched keeps judging it (liveness). non-trivial = the history reached >=2 of the biased states (pending fall time, open EOM block, pending SLM mask, near max duration, measured); distinct = distinct concrete op traces",
+        A.make_profile(
+            ops_per_channel=(2, 6),
+            max_restarts=8,
+            slm_p=0.4,
+            measure_p=0.3,
+            max_base=14,
+            chan_ops={"add": 10, "delay": 3, "target": 3, "phase_shift": 2, "align": 2, "enable_eom": 3},
+        ),
+        lambda: [c09.C09(), c09.Relabel(c03.C03(), "C09/live-", only=("C03/not-minimal", "C03/conflict", "C03/barrier"))],
+        nontrivial_fn=c09.nontrivial,
+        world_kw={"bw_bias": 0.75},
+        enumerated=True,
+        runs={"quick": 500, "thorough": 12000},
+        assumptions=["fault positions and the catalogue are enumerated completely per base history; base histories are sampled", "state comparison covers timeline, phase references and shift times, EOM blocks, mode flags (incl. parametrized), declared/available channels and the canonical call log"],
+        expected_probes=["state_pending_fall", "state_open_eom", "state_slm_pending", "state_near_max_seq", "state_measured", "restart_after_failed_call"],
     )
 
 
